@@ -404,7 +404,12 @@ class FileStorage(
         with the index.  Any invalid record records or inconsistent
         object positions cause zero to be returned.
         """
-        r = self._check_sanity(index, pos)
+        try:
+            r = self._check_sanity(index, pos)
+        except Exception:
+            # The saved index does not match the file; it is only a cache.
+            logger.exception("Error checking index for %s", self._file_name)
+            r = 0
         if not r:
             logger.warning("Ignoring index for %s", self._file_name)
         return r
